@@ -70,6 +70,8 @@ func w9Gen(r *rand.Rand, prop, tier string) *simrt.Case {
 	c.Config["max_steps"] = 60000
 	c.Config["max_virtual_s"] = 3000
 	c.Config["topics"] = int64(r.IntN(3))
+	c.Config["sibling"] = w9pick[int64](r, 0, 0, 0, 1)
+	c.Config["drift"] = w9pick[int64](r, 0, 0, 1)
 	c.Program = []simrt.Op{{Actor: 0, Kind: "reconcile"}}
 	for i := 0; i < w9pick(r, 0, 0, 1, 2, 3); i++ {
 		switch r.IntN(5) {
@@ -272,6 +274,34 @@ func (w *w9) snapshot(c client.Client, keepVersions bool) (map[string]string, er
 	return out, nil
 }
 
+const w9DriftKey = "third-party.example/touched"
+
+// w9StripDrift removes the third party's annotation from every object of a snapshot (and re-encodes all objects
+// the same way, so that two stripped snapshots compare).
+func w9StripDrift(snap map[string]string) map[string]string {
+	out := map[string]string{}
+	for k, v := range snap {
+		var m map[string]any
+		if json.Unmarshal([]byte(v), &m) != nil {
+			out[k] = v
+			continue
+		}
+		if md, ok := m["metadata"].(map[string]any); ok {
+			delete(md, "resourceVersion") // (the writes that put things back do move it)
+			delete(md, "generation")
+			if an, ok := md["annotations"].(map[string]any); ok {
+				delete(an, w9DriftKey)
+				if len(an) == 0 {
+					delete(md, "annotations")
+				}
+			}
+		}
+		js, _ := json.Marshal(m)
+		out[k] = string(js)
+	}
+	return out
+}
+
 func apiMetaExtract(l client.ObjectList) ([]client.Object, error) {
 	var out []client.Object
 	switch v := l.(type) {
@@ -402,10 +432,26 @@ func (w *w9) settle(r *ClusterReconciler, c client.Client, key types.NamespacedN
 func (w *w9) run() {
 	scheme := w9Scheme()
 	cluster := w9Cluster(w.c.Cfg("spec_seed", 1))
+	if w.c.Cfg("sibling", 0) == 1 {
+		// (a name no earlier case of this OS process has used: whatever the operator process remembers about a
+		// cluster name, it has it from the sibling reconciled below)
+		cluster.Name = fmt.Sprintf("%s-%05x", cluster.Name, w.c.Cfg("spec_seed", 1)&0xfffff)
+	}
 	var objs []client.Object
 	objs = append(objs, cluster.DeepCopy())
 	for i := 0; i < int(w.c.Cfg("topics", 0)); i++ {
 		objs = append(objs, &kafscalev1alpha1.KafscaleTopic{ObjectMeta: metav1.ObjectMeta{Name: fmt.Sprintf("topic-%d", i), Namespace: cluster.Namespace}, Spec: kafscalev1alpha1.KafscaleTopicSpec{ClusterRef: cluster.Name, Partitions: int32(1 + i)}})
+	}
+	const siblingNS = "zz-other-ns"
+	if w.c.Cfg("sibling", 0) == 1 {
+		// the same operator process has reconciled a cluster of the same name and shape in another namespace
+		// before: nothing of that one may show in what is rendered for this one
+		sib := cluster.DeepCopy()
+		sib.Namespace, sib.UID = siblingNS, types.UID("uid-sibling")
+		c0 := w.api(scheme, sib)
+		r0 := &ClusterReconciler{Client: c0, Scheme: scheme, Publisher: NewSnapshotPublisher(c0)}
+		_, _, _ = w.settle(r0, c0, types.NamespacedName{Namespace: siblingNS, Name: sib.Name})
+		w.sim.Probe("c42.sibling-cluster-reconciled-first")
 	}
 	c := w.api(scheme, objs...)
 	r := &ClusterReconciler{Client: c, Scheme: scheme, Publisher: NewSnapshotPublisher(c)}
@@ -423,6 +469,44 @@ func (w *w9) run() {
 	if len(s1) == 0 {
 		w.sim.Fail("HARNESS", "snapshot", "no generated objects found")
 		return
+	}
+	if w.c.Cfg("sibling", 0) == 1 {
+		var ks []string
+		for k := range s2 {
+			ks = append(ks, k)
+		}
+		sort.Strings(ks)
+		for _, k := range ks {
+			if v := s2[k]; strings.Contains(v, siblingNS) {
+				w.sim.Fail("C42", "rendering-depends-on-another-cluster", "object %s rendered for cluster %s/%s mentions %q, the namespace of another cluster the same operator process reconciled earlier (the cluster resource does not contain it)", k, cluster.Namespace, cluster.Name, siblingNS)
+				return
+			}
+		}
+	}
+	if w.c.Cfg("drift", 0) == 1 {
+		// a third party annotates the Services the operator owns; whatever the next reconciles have to write
+		// (possibly meeting a write conflict), the objects come out as they were, the annotation aside
+		var svcs corev1.ServiceList
+		if err := c.List(context.Background(), &svcs); err == nil {
+			for i := range svcs.Items {
+				svc := &svcs.Items[i]
+				if svc.Annotations == nil {
+					svc.Annotations = map[string]string{}
+				}
+				svc.Annotations[w9DriftKey] = "1"
+				_ = c.Update(context.Background(), svc)
+			}
+		}
+		w.sim.Probe("c42.third-party-annotated-services")
+		_, s4, ok := w.settle(r, c, key)
+		if !ok {
+			w.sim.Probe("c42.never-settled-after-drift")
+			return
+		}
+		if d := diffSnap(w9StripDrift(s2), w9StripDrift(s4)); d != "" {
+			w.sim.Fail("C42", "objects-changed-after-foreign-annotation", "a third party annotated the operator's Services; after reconciling the unchanged cluster again a generated object differs from what it was: %s", d)
+			return
+		}
 	}
 	// the same cluster resource against a fresh API server renders the same objects
 	var objs2 []client.Object
@@ -445,6 +529,9 @@ func (w *w9) run() {
 		return
 	}
 	w.sim.Probe("c42.determinism-judged")
+	if w.c.Cfg("drift", 0) == 1 {
+		a, b = w9StripDrift(a), w9StripDrift(b) // (the third party's annotation is only on the first server)
+	}
 	if d := diffSnap(a, b); d != "" {
 		w.sim.Fail("C42", "rendering-not-a-function-of-the-resource", "the same cluster resource reconciled against a fresh API server rendered different objects: %s", d)
 	}
